@@ -40,6 +40,85 @@ def _setter(ctx, lib, adt, name, tgt_pat, val_pat, rule, what):
     ctx.check(ok, rule, b, "setter:" + name, b.span, "%s::%s must %s; stores %s" % (adt, name, what, [(show(s["tgt"]), show(s["val"])) for s in ws]))
 
 
+def _packing(ctx, lib, PK):
+    """ACC-PACK: the four accessors of the packed word as BIT FUNCTIONS (rules/bits.py), whatever expression computes them:
+         a()      = word[8..32)                 b()      = word[0..8)
+         set_a(x) : word' = x[0..24) << 8 | word[0..8)      set_b(y) : word' = word[8..32) << 8 | y[0..8)"""
+    from . import bits
+    W = 32
+    word = F(Par(1), "0", PK)
+    bodies = {n: lib.one_body(adt=PK, name=n) for n in ("a", "b", "set_a", "set_b")}
+    for n, bd in bodies.items():
+        if bd is None:
+            ctx.missing("ACC-PACK", "%s::%s" % (PK, n))
+            return
+
+    def env_for(argname, argbits):
+        def env(t):
+            if m(word, t):
+                return bits.var_bits("w", 32, W)
+            if t[0] == "param" and t[1] == 2:
+                return bits.var_bits(argname, argbits, W)
+            return None
+        return env
+
+    def getter_bits(name, recv_bits):
+        """bits of PK::name() on a receiver whose word has the given bits"""
+        bd = bodies[name]
+        t = _ret(lib, bd)
+
+        def env(x):
+            if m(word, x):
+                return recv_bits
+            return None
+        return bits.ev(t, env, W, call=None)
+
+    def mk_call(env):
+        def call(t, depth):
+            key = t[1].split("@")[0]
+            if key == "intpack::U24::get" and len(t[2]) == 1:
+                return bits.ev(t[2][0], env, W, call, depth + 1)
+            if key in (PK + "::a", PK + "::b") and len(t[2]) == 1 and t[2][0][0] == "param" and t[2][0][1] == 1:
+                return getter_bits(key.split("::")[-1], bits.var_bits("w", 32, W))
+            raise bits.Unknown()
+        return call
+    wbits = bits.var_bits("w", 32, W)
+    spec = {
+        "a": wbits[8:] + [bits.ZERO] * 8,
+        "b": wbits[:8] + [bits.ZERO] * 24,
+        "set_a": wbits[:8] + bits.var_bits("x", 24, W)[:24],
+        "set_b": bits.var_bits("y", 8, W)[:8] + wbits[8:],
+    }
+    what = {"a": "U24(self.0 >> 8): bits 8..32 of the word", "b": "the low byte of the word", "set_a": "store (a << 8) | low byte kept",
+            "set_b": "store high 24 bits kept | b"}
+    for name in ("a", "b"):
+        bd = bodies[name]
+        t = _ret(lib, bd)
+        env = env_for("_", 0)
+        try:
+            got = bits.ev(t, env, W, mk_call(env))
+        except bits.Unknown:
+            got = None
+        okw = True
+        if name == "a":
+            okw = t[0] == "agg" and t[1] == "intpack::U24"
+        ctx.check(got == spec[name] and okw, "ACC-PACK", bd, "getter:" + name, bd.span,
+                  "%s::%s must return %s; returns %s" % (PK, name, what[name], show(t)), show(t))
+    for name, arg, nb in (("set_a", "x", 24), ("set_b", "y", 8)):
+        bd = bodies[name]
+        S = Sites(lib, bd)
+        ws = S.stores
+        got = None
+        if len(ws) == 1 and m(word, ws[0]["tgt"]):
+            env = env_for(arg, nb)
+            try:
+                got = bits.ev(ws[0]["val"], env, W, mk_call(env))
+            except bits.Unknown:
+                got = None
+        ctx.check(got == spec[name], "ACC-PACK", bd, "setter:" + name, bd.span,
+                  "%s::%s must %s; stores %s" % (PK, name, what[name], [(show(s_["tgt"]), show(s_["val"])) for s_ in ws]))
+
+
 def rule_accessors(ctx, R):
     lib = ctx.lib
     for v in R.variants():
@@ -80,15 +159,7 @@ def rule_accessors(ctx, R):
                 ctx.check(ok, "ACC-STATE", b, "setter:set_output_pos", b.span,
                           "set_output_pos must store x.map_or(0, get) (range-checked as U24) in the high 24 bits of opos_ch (set_a)")
             # ---- packing
-            _getter(ctx, lib, PK, "a", ("agg", "intpack::U24", "U24", (("0", B("Shr", F(Par(1), "0", PK), K(8))),)), "ACC-PACK", "U24(self.0 >> 8)")
-            word = F(Par(1), "0", PK)
-            low8 = OneOf(B("BitAnd", word, K(255)), ("cast", word, "u32", "u8"),
-                         E(C(endswith("::to_le_bytes"), word), K(0)), E(C(endswith("::to_be_bytes"), word), K(3)))
-            _getter(ctx, lib, PK, "b", low8, "ACC-PACK", "the low byte of self.0 (self.0 & 0xFF)")
-            _setter(ctx, lib, PK, "set_a", F(Par(1), "0", PK), B("BitOr", B("Shl", C("intpack::U24::get", Par(2)), K(8)), C(PK + "::b", Par(1))),
-                    "ACC-PACK", "store (a << 8) | self.b()")
-            _setter(ctx, lib, PK, "set_b", F(Par(1), "0", PK), B("BitOr", B("Shl", C("intpack::U24::get", C(PK + "::a", Par(1))), K(8)), Par(2)),
-                    "ACC-PACK", "store (self.a() << 8) | b")
+            _packing(ctx, lib, PK)
             _getter(ctx, lib, "intpack::U24", "get", F(Par(1), "0", "intpack::U24"), "ACC-PACK", "self.0")
             c = lib.consts.get("intpack::U24::MAX")
             ctx.check(c is not None and c["val"] == 0xFFFFFF, "ACC-PACK", "intpack::U24", "max-const", "", "U24::MAX must be 0x00ff_ffff")
